@@ -143,6 +143,20 @@ func oracleC06(r *rig, res *scnResult) {
 		}
 	}
 	res.Info["nodes"] = len(fs)
+	if r.s.Readers > 0 {
+		res.Info["concurrent-reads"] = atomic.LoadInt64(&r.readCount)
+		// every header of a conformant reply is stored connected: the peer delivered its parent before it
+		for _, row := range res.Rows {
+			if row.State == "ORPHAN" {
+				res.Failures = append(res.Failures, lib.Failure{Case: res.Name, Ops: res.S.Ops(),
+					What:      fmt.Sprintf("a header of a conformant reply (#%s, height %d) is stored as ORPHAN although the same peer delivered its parent before it, while the store was being read concurrently (%d reads)", r.tree.name(row.Hash), row.Height, atomic.LoadInt64(&r.readCount)),
+					Expected:  "every header of the reply stored, connected",
+					Observed:  "ORPHAN",
+					Signature: "c06-conformant-reply-header-stored-orphan-under-concurrent-reads", Extra: map[string]any{"notes": r.notes}})
+				break
+			}
+		}
+	}
 	if best == nil {
 		res.Info["vacuous"] = "no honest reachable peer"
 		return
@@ -672,6 +686,33 @@ func genLinear(rng *rand.Rand, o genOpts, engine string) *scn {
 }
 
 // timePasses: more than three minutes go by (the sync-peer watchdog gets its chance), then whatever it started runs.
+
+// genReaders: a long-ish linear chain (several replies) synced from one honest node in free-running mode while background
+// goroutines keep reading the store (scn.Readers): tip, locator, GET /api/v1/chain/tip/longest
+func genReaders(rng *rand.Rand, engine string) *scn {
+	L := 300 + rng.Intn(900)
+	s := &scn{Engine: engine, Sched: "free", Seed: rng.Int63n(1 << 30), Salt: rng.Uint32(), Parents: linearParents(L), Readers: 3}
+	s.Bits = make([]uint32, L)
+	for i := range s.Bits {
+		s.Bits[i] = defaultBits
+	}
+	switch rng.Intn(3) {
+	case 0:
+		s.Cps = []int{L - 1}
+	case 1:
+		s.Cps = []int{L / 3, 2 * L / 3}
+	default:
+		s.Cps = []int{L - 1}
+		s.CpOff = engine == "legacy"
+	}
+	if engine == "exp" && rng.Intn(2) == 0 {
+		s.Cps = nil
+	}
+	s.Nodes = append(s.Nodes, scnNode{Path: seq(0, L), Pos: L, Cap: 100 + rng.Intn(400), Dir: "out", Honest: true, CloseAt: -1, StallAt: -1})
+	s.Steps = append(s.Steps, scnStep{Kind: "connect", Node: 0}, scnStep{Kind: "run"})
+	return s
+}
+
 func timePasses(s *scn) {
 	if s.Engine == "legacy" {
 		s.Steps = append(s.Steps, scnStep{Kind: "tick", N: 200}, scnStep{Kind: "run"})
@@ -835,7 +876,7 @@ func reportScn(c *Ctx, res *scnResult, rigErrs *int) {
 }
 
 func runC06(c *Ctx) error {
-	c.R.Rule = "scenario = block tree (linear or forked, 5..60 headers quick / up to thousands thorough) x 1..3 scripted conformant nodes (full, lagging, other branch; cap 1/2/7/2000; inbound or outbound; close/stall at a message index) x engine {legacy, experimental} x checkpoints {disabled, one, several, last at tip, none(exp)} x initial store {genesis, prefix, prefix+stale fork, lighter branch} x announcements {inv, one inv carrying announced + new blocks and tx entries, headers; one or several nodes} x scheduling {serial with per-event trace comparison against the Lean model, free-running goroutines with seeded delays}; non-trivial = more than one request round or more than one peer or an announcement / peer loss; accepted (counted, not failed) per the property's proviso: the best peer's last, cap-limited answer brought only known headers, nothing was requested from it afterwards and it has not announced since"
+	c.R.Rule = "scenario = block tree (linear or forked, 5..60 headers quick / up to thousands thorough) x 1..3 scripted conformant nodes (full, lagging, other branch; cap 1/2/7/2000; inbound or outbound; close/stall at a message index) x engine {legacy, experimental} x checkpoints {disabled, one, several, last at tip, none(exp)} x initial store {genesis, prefix, prefix+stale fork, lighter branch} x announcements {inv, one inv carrying announced + new blocks and tx entries, headers; one or several nodes} x a handful of syncs of 300..1200 headers (several replies) while background goroutines read the store (tip, locator, GET /api/v1/chain/tip/longest) x scheduling {serial with per-event trace comparison against the Lean model, free-running goroutines with seeded delays}; non-trivial = more than one request round or more than one peer or an announcement / peer loss; accepted (counted, not failed) per the property's proviso: the best peer's last, cap-limited answer brought only known headers, nothing was requested from it afterwards and it has not announced since"
 	l := newSyncModel(c)
 	defer l.Close()
 	if c.Replay != "" {
@@ -875,6 +916,26 @@ func runC06(c *Ctx) error {
 	}
 	if corpusErrs > 0 {
 		c.R.Fail(lib.Failure{Case: "corpus", What: "a corpus scenario could not be evaluated (rig error, see notes)", Signature: "c06-other:rig-error"})
+	}
+	// a handful of syncs of a longer chain under concurrent reads of the store
+	rrng := lib.Rng(c.Seed, "c06-readers")
+	nReaders := 5
+	if c.Thorough {
+		nReaders = 40
+	}
+	for i := 0; i < nReaders; i++ {
+		engine := "legacy"
+		if i%5 == 4 {
+			engine = "exp"
+		}
+		s := genReaders(rrng, engine)
+		name := fmt.Sprintf("readers-%s-%d", engine, i)
+		res := runScenario(name, s, oracleC06)
+		if res.Err != nil {
+			res = runScenario(name+"-retry", s, oracleC06)
+		}
+		reportScn(c, res, &corpusErrs)
+		c.R.Count("kind:concurrent-reads", 1)
 	}
 	rng := lib.Rng(c.Seed, "c06-scenarios")
 	o := genOpts{MaxLen: 40}
